@@ -434,6 +434,7 @@ structure SS where
   lenient : Bool := false  -- the observation is cut short (runaway): ids may be unknown
   svc : Bool := false      -- service-level case
   own : Nat := 0           -- the check timer the service believes it owns (0: none)
+  blocked : Bool := false  -- rs mode: the owner loop is known to be stuck, the queue may fill
   emptySince : Option Nat := none  -- the request table has been observed empty since (end of an op)
   idleTicks : Nat := 0     -- check-timer ticks since then
   deriving Inhabited
@@ -574,6 +575,8 @@ def specStep (s : SS) (line : String) : SS × String :=
           | some id => s.modify id fun ti => { ti with cancelled := true }
           | none => s
         | some "stop" | some "rstop" => { s with stopped := true }
+        | some "block" => if obs.startsWith "ev=" then { s with blocked := true } else s
+        | some "unblock" => if obs.startsWith "ev=" then { s with blocked := false } else s
         | _ => s
       -- callbacks may only run while the owner drains the queue
       let toks := evToks obs "ev"
@@ -602,7 +605,7 @@ def specStep (s : SS) (line : String) : SS × String :=
       -- nothing that is due may be missing from the queue once everything is quiescent
       let s := match kvNat ow "q" with
         | some q =>
-          let s := if s.rs && q > 0 then s.flag "C14/queue-not-drained" s!"{q} expiries left in the queue of a running run service" else s
+          let s := if s.rs && !s.blocked && q > 0 then s.flag "C14/queue-not-drained" s!"{q} expiries left in the queue of a running run service" else s
           let od := overdue s
           if !s.stopped && q < qcap && od.length > q then
             let ti : TI := od.headD default
